@@ -109,6 +109,7 @@ func runKeepAlive(steps []kaStep, k, req int, unit time.Duration) string {
 	}()
 	lastSend := time.Now()
 	wantPongs := 0
+	sawBig := false // the broker may close right after an over-long packet began (refusal): not "too early"
 	for i, st := range steps {
 		time.Sleep(time.Until(lastSend.Add(time.Duration(st.Gap) * unit)))
 		mu.Lock()
@@ -116,6 +117,9 @@ func runKeepAlive(steps []kaStep, k, req int, unit time.Duration) string {
 		mu.Unlock()
 		switch st.Expect {
 		case "up":
+			if !ca.IsZero() && sawBig {
+				return "" // closed by the refusal of the over-long packet
+			}
 			if !ca.IsZero() {
 				if ca.Sub(lastSend) >= time.Duration(k)*time.Second {
 					// this process was held up (loaded machine) and did not send in time: the broker was right to
@@ -132,10 +136,18 @@ func runKeepAlive(steps []kaStep, k, req int, unit time.Duration) string {
 				wantPongs++
 			} else if st.Kind == "part1" {
 				_, err = m.c.Write([]byte{0xc0}) // the first byte of a PINGREQ, and nothing more
+			} else if st.Kind == "partbig" {
+				// remaining length 8192 (the 16 KiB ring minus one read block): 8193 of the packet's 8195 bytes
+				p := pkt(0x30, append(lp([]byte("k")), make([]byte, 8192-3)...))
+				sawBig = true
+				_, err = m.c.Write(p[:len(p)-2])
 			} else if st.Kind == "part3" {
 				_, err = m.c.Write([]byte{0x30, 0x0a, 0x00}) // a PUBLISH announcing 10 bytes of which one arrives
 			} else {
 				_, err = m.c.Write(pkt(0x30, append(lp([]byte("ka/t")), 'x')))
+			}
+			if err != nil && st.Kind == "partbig" {
+				err = nil // refused while it was still being written: the broker may do that
 			}
 			if err != nil {
 				if time.Since(lastSend) >= time.Duration(k)*time.Second {
@@ -149,7 +161,7 @@ func runKeepAlive(steps []kaStep, k, req int, unit time.Duration) string {
 				return fmt.Sprintf("step %d: the client was silent for %v (%.1f x KeepAlive %ds) and the connection is still open", i,
 					time.Duration(st.Gap)*unit, float64(st.Gap)/10, k)
 			}
-			if d := ca.Sub(lastSend); d < time.Duration(k)*time.Second {
+			if d := ca.Sub(lastSend); d < time.Duration(k)*time.Second && !sawBig {
 				return fmt.Sprintf("step %d: connection closed only %v after the last packet (KeepAlive %ds)", i, d.Round(10*time.Millisecond), k)
 			}
 			// abnormal end: the will reaches the witness
@@ -175,7 +187,7 @@ func runKeepAlive(steps []kaStep, k, req int, unit time.Duration) string {
 	if pongs != wantPongs && closedAt.IsZero() {
 		return fmt.Sprintf("%d PINGREQ sent, %d PINGRESP received", wantPongs, pongs)
 	}
-	if !closedAt.IsZero() {
+	if !closedAt.IsZero() && !sawBig {
 		return "connection closed although the client stayed active"
 	}
 	return ""
